@@ -60,8 +60,8 @@ def _n(tier, quick, thorough, search=None):
 def gen_transform(rng: random.Random, tier: str):
     for _ in range(_n(tier, 14, 300)):
         d = rng.choice([2, 3])
-        g = gen.grid_spec(rng, d)
-        g2 = gen.grid_spec(rng, d) if rng.random() < 0.5 else None
+        g = gen.derive(rng, gen.grid_spec(rng, d))
+        g2 = gen.derive(rng, gen.grid_spec(rng, d)) if rng.random() < 0.5 else None
         for a, b in itertools.product(AX, AX):
             for vectors in (False, True):
                 specs = [g] + ([g2] if g2 else [])
@@ -119,8 +119,8 @@ HELPERS = ["index_to_cube", "cube_to_index", "index_to_world", "world_to_index",
 def gen_apply(rng: random.Random, tier: str):
     for _ in range(_n(tier, 150, 6000)):
         d = rng.choice([2, 3])
-        g = gen.grid_spec(rng, d)
-        g2 = gen.grid_spec(rng, d) if rng.random() < 0.4 else None
+        g = gen.derive(rng, gen.grid_spec(rng, d))
+        g2 = gen.derive(rng, gen.grid_spec(rng, d)) if rng.random() < 0.4 else None
         a, b = rng.choice(AX), rng.choice(AX)
         specs = [g] + ([g2] if g2 else [])
         if not _corners_ok(a, b, *specs):
@@ -345,7 +345,7 @@ def _tol(*vals) -> float:
 def gen_laws(rng: random.Random, tier: str):
     for _ in range(_n(tier, 40, 1500, 400)):
         d = rng.choice([2, 3])
-        gs = [gen.grid_spec(rng, d, min_size=2) for _ in range(3)]
+        gs = [gen.derive(rng, gen.grid_spec(rng, d, min_size=2)) for _ in range(3)]
         two = rng.random() < 0.5
         yield {"grids": gs, "two": two, "x": gen.points(rng, d, 1, -1.2, 1.2)[0], "v": gen.points(rng, d, 1, -0.5, 0.5)[0]}
 
